@@ -70,6 +70,11 @@ def main():
             if a.replay:
                 return compchecks.replay(prop, a.replay)
             return compchecks.run(prop, a.tier, seed)
+        if prop == "C14":
+            from hv import unichecks
+            if a.replay:
+                return unichecks.replay(prop, a.replay)
+            return unichecks.run(prop, a.tier, seed)
         print("unknown property", prop)
         return 2
     except C.BuildError as e:
